@@ -113,16 +113,18 @@ prop("C07",
      )
 
 prop("C11",
-     modules=["Emu2a.Props.C11"],
+     modules=["Emu2a.Props.C11", "Emu2a.Props.C11x.Terminates"],
      theorems=["Emu2a.C11.keyClock_assembly_spec", "Emu2a.C11.stepA_spec", "Emu2a.C11.stepB_spec", "Emu2a.C11.keyClock_real",
                "Emu2a.C11.keyClock_halted", "Emu2a.C11.mode_irrelevant", "Emu2a.C11.edges_mode",
-               "Emu2a.C11.stepB_terminates_partial", "Emu2a.C11.fetch_successor_not_fetch", "Emu2a.C11.stepA_mono"],
+               "Emu2a.C11.stepB_terminates_partial", "Emu2a.C11.fetch_successor_not_fetch", "Emu2a.C11.stepA_mono",
+               "Emu2a.C11.stepB_mono", "Emu2a.C11.reach_done", "Emu2a.C11.stepB_terminates", "Emu2a.C11.after_fetch_not_done",
+               "Emu2a.C11.keyClock_terminates"],
      harness="c11",
-     level_text="Lean theorems: an assembly step returns exactly the iterate clockEdge^(k1+k2) where k1 edges leave the boundary and k2 edges run to the FIRST state that is at the next boundary, halted or a fixed point (never more, never less: every earlier iterate still satisfies the loop condition and is no fixed point); real mode = one edge; a halted machine returns unchanged; the step mode is neither read nor written by clock edges. Termination is proved in partial form (stepB_terminates_partial: returns as soon as some iterate stops or is a fixed point; phase A: a fetch word is never followed by a fetch word); the existence of such an iterate for every state is established by the harness (all 256 opcode bytes x second bytes under a watchdog, every mid-run state of generated runs), not yet by a theorem",
-     technique="Lean 4 loop characterisation by induction on fuel + differential: real trigger_key_clock on a clone vs single edges to the boundary at every edge of generated runs, watchdog for termination",
-     rule="(1) every opcode byte 0..255 at PC (prefixes x defined second bytes + a rotating eighth of all second bytes), three consecutive assembly steps each, real step on a clone under a 5 s watchdog compared (PartialEq) with single edges to the next boundary; (2) 40/400 runs of 300 edges of confined and random programs with stimuli: at EVERY edge a clone is stepped in assembly mode and compared; random mode switches mid-run; distinct = distinct op lines",
+     level_text="Lean theorems: an assembly step returns exactly the iterate clockEdge^(k1+k2) where k1 edges leave the boundary and k2 edges run to the FIRST state that is at the next boundary, halted or a fixed point (never more, never less: every earlier iterate still satisfies the loop condition and is no fixed point); real mode = one edge; a halted machine returns unchanged; the step mode is neither read nor written by clock edges. TERMINATION is a theorem for every machine at an instruction boundary: keyClock_terminates - whatever the registers, flags, memory, wait flag, halt state and supervision limits, with any defined instruction at PC (MUL and DIV with any operands included, by C01's isa_refines) and no interrupt pending, trigger_key_clock in assembly mode returns; reach_done - if the data path reaches a boundary word within n steps the machine leaves the loop condition after at most 2n clock edges; after_fetch_not_done - the first loop ends after one executed edge (over the regenerated control store). For states inside an instruction, with an interrupt pending at the end of the instruction, or with an undefined opcode (hang words become fixed points, fix c003f27) termination is conditional (stepB_terminates_partial) and established by the harness sweep (all 256 opcode bytes x second bytes under a watchdog, every mid-run state of generated runs incl. interrupt entry)",
+     technique="Lean 4 loop characterisation by induction on fuel + termination from the ISA refinement (every data-path step costs at most two edges) + differential: real trigger_key_clock on a clone vs single edges to the boundary at every edge of generated runs, watchdog for termination",
+     rule="(1) every opcode byte 0..255 at PC (prefixes x defined second bytes + a rotating eighth of all second bytes), three consecutive assembly steps each, real step on a clone under a 5 s watchdog compared (PartialEq) with single edges to the next boundary; (2) 40/400 runs of 300 edges of confined and random programs with stimuli: at EVERY edge a clone is stepped in assembly mode and compared; random mode switches mid-run; (3) long instructions: DIV/MUL with every dividend and divisors 1,2,3,7,255; distinct = distinct op lines",
      explanation="hang words (undefined opcodes) become fixed points after their second execution; the fix c003f27 leaves the loop there",
-     assumptions=["unconditional termination rests on C09's bounds plus the harness sweep (see level text)"],
+     assumptions=["termination from mid-instruction states and across interrupt entry rests on the conditional theorem plus the harness sweep (see level text)"],
      )
 
 prop("C15",
